@@ -235,7 +235,7 @@ func ignoredByPattern(ps []c15Pattern, rel string) bool {
 // ---------------------------------------------------------------------------
 // Generators
 
-var c15DirNames = []string{"src", "lib", "a", "docs", "pkg", "deep", "été", "with space", "vendor", "build", "x-y", "Src", "node_modules"}
+var c15DirNames = []string{"src", "lib", "a", "docs", "pkg", "deep", "été", "with space", "vendor", "build", "x-y", "Src", "node_modules", "foo.egg-info", "old.bak", "testdata"}
 var c15DefaultIgnore = []string{".git", ".hg", ".svn"}
 var c15FileNames = []string{
 	"main.go", "README.md", "a.txt", "b.txt", "x", "Makefile", "data.bin", "big.dat", "notes.md", "été.txt", "sp ace.txt",
@@ -405,22 +405,102 @@ func patternSafe(p string) bool {
 	return !strings.ContainsAny(p, "\\[]{}*?!,\n\r") && utf8.ValidString(p)
 }
 
-// genIgnoreFile writes .sourcegraph/ignore from the paths of the tree. Glob
-// patterns always end in ".ext" and directory names never contain a dot, so a
-// glob can never match a directory: only the prefix patterns prune.
+// contentDirs returns the real directories that hold at least one file or
+// symbolic link somewhere below them (all real directories if there is none).
+func (t *c15TreeGen) contentDirs() []string {
+	has := map[string]bool{}
+	for _, e := range t.c.Entries {
+		if e.Kind != "file" && e.Kind != "symlink" {
+			continue
+		}
+		for d := path.Dir(e.Path); d != "."; d = path.Dir(d) {
+			has[d] = true
+		}
+	}
+	var out []string
+	for _, d := range t.dirs {
+		if has[d] && patternSafe(d) {
+			out = append(out, d)
+		}
+	}
+	if len(out) == 0 {
+		for _, d := range t.dirs {
+			if patternSafe(d) {
+				out = append(out, d)
+			}
+		}
+	}
+	return out
+}
+
+// genDirGlob makes a pattern that carries a glob character and is shaped
+// after a directory of the tree: most forms end in "/" and therefore describe
+// no file path at all (a relative file path never ends in a separator; no
+// implicit "**" is appended to a pattern with a glob character), the others
+// describe what lies below a directory but not the directory itself.
+func (t *c15TreeGen) genDirGlob(dirs []string) string {
+	g := t.g
+	if len(dirs) == 0 {
+		return kit.Pick(g, []string{"*/", "**/", "**/testdata/", "*.egg-info/", "*/*/"}, "dirglob-any")
+	}
+	d := kit.Pick(g, dirs, "gdir")
+	parent, base := path.Split(d) // parent keeps its trailing "/"
+	rs := []rune(base)
+	switch g.U(12, "dirglob") {
+	case 0:
+		return "**/" + base + "/"
+	case 1:
+		return "*/"
+	case 2:
+		return parent + "*/"
+	case 3: // first letter(s) of the last element, then a star
+		return parent + string(rs[:g.Int(1, len(rs), "keep")]) + "*/"
+	case 4:
+		if i := strings.LastIndex(base, "."); i >= 0 {
+			return "*" + base[i:] + "/"
+		}
+		return "*." + kit.Pick(g, []string{"bak", "egg-info", "keep"}, "dext") + "/"
+	case 5:
+		return "**/"
+	case 6: // every element replaced by a star
+		return strings.Repeat("*/", strings.Count(d, "/")+1)
+	case 7: // fixed length: one character replaced by '?', no star (cf. rowProne)
+		k := g.Int(0, len(rs)-1, "dqpos")
+		if rs[k] == '.' {
+			return "**/" + base + "/"
+		}
+		rs[k] = '?'
+		return parent + string(rs) + "/"
+	case 8:
+		return "**" + base + "/"
+	case 9:
+		return d + "/*/"
+	case 10: // below a directory of that name, at depth >= 1 (no trailing slash)
+		return "**/" + base + "/**"
+	default: // directly below the directory (no trailing slash)
+		return d + "/*"
+	}
+}
+
+// genIgnoreFile writes .sourcegraph/ignore from the paths of the tree: prefix
+// patterns (implicit "**"), globs on file names, and globs shaped after
+// directories, most of which end in "/".
 func (t *c15TreeGen) genIgnoreFile() string {
 	g := t.g
 	var lines []string
 	n := g.Int(1, 4, "npatterns")
 	all := append(append([]string{}, t.dirs...), t.files...)
+	cdirs := t.contentDirs()
 	for i := 0; i < n; i++ {
 		var p string
-		switch g.Int(0, 9, "patkind") {
+		switch g.Int(0, 13, "patkind") {
 		case 0: // a directory, by its whole path
 			if len(t.dirs) > 0 {
 				p = kit.Pick(g, t.dirs, "pdir")
 				if strings.Contains(p, ".") || !patternSafe(p) {
 					p = ""
+				} else if g.U(3, "pdirslash") == 2 {
+					p += "/" // "dir/" + implicit "**": everything below, not the directory itself
 				}
 			}
 		case 1: // a string prefix of some path
@@ -467,11 +547,13 @@ func (t *c15TreeGen) genIgnoreFile() string {
 				}
 			}
 		case 8:
-			p = kit.Pick(g, []string{"# a comment", "", "   ", "#*.go"}, "noise")
+			p = kit.Pick(g, []string{"# a comment", "", "   ", "#*.go", "\t", "#", " # indented comment", "#/"}, "noise")
 			lines = append(lines, p)
 			continue
-		default:
+		case 9:
 			p = "nothing-matches-this"
+		default: // 10-13: a glob shaped after a directory
+			p = t.genDirGlob(cdirs)
 		}
 		if p == "" {
 			continue
@@ -484,9 +566,13 @@ func (t *c15TreeGen) genIgnoreFile() string {
 		}
 		lines = append(lines, p)
 	}
-	s := strings.Join(lines, "\n")
+	sep := "\n"
+	if g.U(8, "crlf") == 7 {
+		sep = "\r\n"
+	}
+	s := strings.Join(lines, sep)
 	if g.Int(0, 2, "eol") != 2 {
-		s += "\n"
+		s += sep
 	}
 	return s
 }
@@ -771,7 +857,8 @@ func runC15Dir(rec *kit.Recorder, c c15Case) error {
 	for _, d := range c.IgnoreDirs {
 		ignoreDirs[d] = struct{}{}
 	}
-	pruned := map[string]bool{} // directories that are not descended into
+	pruned := map[string]bool{}    // directories that are not descended into
+	slashOnly := map[string]bool{} // walked directories whose path matches a pattern only with "/" appended
 	want := map[string][]string{}
 	maybe := map[string]string{} // ignored only through a pattern the known glob defect can break: path -> document if it is not ignored
 	var labels []string
@@ -793,6 +880,16 @@ func runC15Dir(rec *kit.Recorder, c c15Case) error {
 				nt = true
 				continue
 			}
+		}
+		if e.Kind == "dir" && !ignoredByPattern(patterns, e.Path) && ignoredByPattern(patterns, e.Path+"/") {
+			// a pattern describes "<dir>/" but not the directory's own path: the
+			// directory is walked, and what lies below it is judged path by path
+			labels = append(labels, "dir:walked-although-a-pattern-matches-it-with-a-trailing-slash")
+			slashOnly[e.Path] = true
+		}
+		if p := path.Dir(e.Path); (e.Kind == "file" || e.Kind == "symlink") && slashOnly[p] && !ignoredByPattern(patterns, e.Path) {
+			labels = append(labels, "kept:below-dir-matched-only-with-a-trailing-slash")
+			nt = true
 		}
 		if ignoredByPattern(patterns, e.Path) {
 			if e.Kind == "dir" {
@@ -829,6 +926,11 @@ func runC15Dir(rec *kit.Recorder, c c15Case) error {
 	}
 	if len(patterns) > 0 {
 		labels = append(labels, "ignore-file:active")
+	}
+	for _, p := range patterns {
+		if ps := string(p); strings.HasSuffix(ps, "/") && strings.ContainsAny(ps, "*?") {
+			labels = append(labels, "ignore-pattern:glob-ending-in-slash")
+		}
 	}
 
 	opts := c.buildOptions(indexDir, "repo")
@@ -1159,10 +1261,11 @@ func TestVerif_C15(t *testing.T) {
 	// process with log.Fatal on a walk error and the message is the only trace of that.
 	log.SetFlags(log.Lmicroseconds)
 	rec := kit.Open(t, "C15",
-		"rapid-generated inputs of two kinds. Directory trees (60%): up to 40 entries, depth <= 3: regular files (empty, 1-2 bytes, text, invalid UTF-8, NUL-carrying, around the size limit, trigram-rich, odd names incl. glob characters, quotes, newlines), directories, directories named like the -ignore_dirs list (default .git,.hg,.svn, a custom list, or none) with content, files and symlinks carrying such names, symlinks to files / directories / outside the root (relative and absolute) / dangling / self / short and long targets, FIFOs, a .sourcegraph/ignore file (prefix, *.ext, **/*.ext, **.ext, dir/*.ext, exact and ?-patterns, comments, padding, leading slash) or a symlinked / directory-shaped one; indexed by indexArg. Archives (40%): tar / tar.gz / zip with regular members, directory entries, symlinks, hard links, FIFOs, pax global header, optional common top directory and ./ prefix, duplicate names, strip count 0-2, plus zero-length files, archives without members or with directories only, and archives cut at a drawn offset; indexed by archive.Index. Options: SizeMax 64/200/default, TrigramMax 20/default, ShardMax 1500/default, LargeFiles **/*.keep. A case = one input; non-trivial = at least one symlink, ignored entry, filtered non-regular member or stripped-away member; distinct by hash of the case",
+		"rapid-generated inputs of two kinds. Directory trees (60%): up to 40 entries, depth <= 3: regular files (empty, 1-2 bytes, text, invalid UTF-8, NUL-carrying, around the size limit, trigram-rich, odd names incl. glob characters, quotes, newlines), directories, directories named like the -ignore_dirs list (default .git,.hg,.svn, a custom list, or none) with content, files and symlinks carrying such names, symlinks to files / directories / outside the root (relative and absolute) / dangling / self / short and long targets, FIFOs, a .sourcegraph/ignore file (prefix, dir/, *.ext, **/*.ext, **.ext, dir/*.ext, exact and ?-patterns; globs shaped after a directory that holds files, most ending in a slash: **/name/, */, parent/*/, na*/, *.ext/ for dotted directory names, **/, */*/, na?e/, **name/, dir/*/, and **/name/**, dir/*; comments, blank and blank-looking lines, padding, leading slash, LF or CRLF line ends) or a symlinked / directory-shaped one; indexed by indexArg. Archives (40%): tar / tar.gz / zip with regular members, directory entries, symlinks, hard links, FIFOs, pax global header, optional common top directory and ./ prefix, duplicate names, strip count 0-2, plus zero-length files, archives without members or with directories only, and archives cut at a drawn offset; indexed by archive.Index. Options: SizeMax 64/200/default, TrigramMax 20/default, ShardMax 1500/default, LargeFiles **/*.keep. A case = one input; non-trivial = at least one symlink, ignored entry, filtered non-regular member or stripped-away member; distinct by hash of the case",
 		"documents are read back from every shard of the output directory with query.Const{true} and Whole=true and compared as a multiset of (name, content)",
 		"a file the builder skips is represented by its document with the NOT-INDEXED explanation (size limit by on-disk size / link-target length, fewer than 3 bytes, NUL byte, more distinct trigrams than TrigramMax)",
-		"ignore file semantics as documented in ignore.ParseIgnoreFile; glob patterns end in .ext and directory names have no dot, so only prefix patterns prune directories; an exact-path pattern is only generated when no other path extends it (code and comment differ on the implicit ** for names with a dot)",
+		"ignore file semantics as documented in ignore.ParseIgnoreFile and ignore.Matcher: an entry is left out iff its own root-relative path (no trailing separator) matches a pattern, a directory whose path matches is not descended into; a pattern with a glob character gets no implicit **, so one ending in / describes no path at all and a directory it seems to name is walked and its files judged one by one; a file-name glob such as *.bak does prune a directory called old.bak; an exact-path pattern is only generated when no other path extends it and dotted directory names never appear in glob-free patterns (code and comment differ on the implicit ** for names with a dot)",
+		"patterns with ? never carry a * (the known finding on fixed-length patterns and multi-byte paths keeps its exact class)",
 		"a name with fewer path elements than the strip count is dropped (stripComponents comment)",
 		"for damaged archives (cut, zero-length) only the absence of a crash is checked; a well-formed archive without documents may be rejected with an error",
 	)
